@@ -127,7 +127,7 @@ def run(tier, seed):
 
     # 1. the property on the complete reachable state graph of the bounded model (hist hidden by the VIEW)
     full_as = ascripts(2, FAILS, oks=("ok", "nosys", "zlen")) | {("zlen",), ("nosys",), ("zlen", "zlen")}
-    mc = consts(3 if q else 4, 0, range(0, 8), ascr=full_as, cbpos=3, erracts=("none", "disable", "free"))
+    mc = consts(4, 0, range(0, 8), ascr=full_as, cbpos=3, erracts=("none", "disable", "free"))
     cfg = vkit.write_cfg("C44_mc", mc, invariants=INVS, properties=PROPS, view="StateView")
     res = vkit.tlc("Listener", cfg, want_prints=False, coverage=True, workers=8)
     chk.add_tlc("C44_mc", res)
@@ -135,24 +135,32 @@ def run(tier, seed):
     chk.cov["exhaustive"] = True
 
     # 2. generated histories replayed on the real listener
+    fault_scripts = {("zlen",), ("nosys",), ("ok", "zlen"), ("zlen", "emfile"), ("nosys", "nomem")}
     gens = [
         # every history of the core API (no accept faults), callbacks doing every re-entrant call
         dict(name="C44_exh_core", n=3,
-             consts=consts(3, 5 if q else 7, [0, 1, 2, 3, 6, 7], acts=ACTS - {"seterr"})),
+             consts=consts(3, 5 if q else 6, [0, 1, 2, 3, 6, 7], acts=ACTS - {"seterr"})),
         # accept faults: every script position x every failure, error callback doing nothing / disable / free
         dict(name="C44_exh_faults", n=3,
              consts=consts(3, 5 if q else 6, [2, 3], acts={"connect", "loop", "seterr", "free"},
-                           ascr=ascripts(1 if q else 2, ["again", "abort", "emfile", "nomem"] if q else FAILS) | {("zlen",), ("nosys",), ("ok", "zlen"), ("zlen", "emfile"), ("nosys", "nomem")},
+                           ascr=ascripts(1, ["again", "abort", "emfile", "nomem"] if q else FAILS) | fault_scripts,
                            cbacts={"free", "disable"}, cbpos=1, erracts=("none", "disable", "free"))),
         # accepted-socket flags and the locking variant
         dict(name="C44_exh_flags", n=2,
              consts=consts(2, 5 if q else 6, [2 + 8, 3 + 16, 2 + 8 + 16 + 32, 3 + 32, 1 + 32, 7 + 32 + 8],
                            acts=ACTS - {"seterr"}, ascr=((), ("nosys",)), cbacts={"free", "setfn2"}, cbpos=2)),
         # long random histories with everything at once
-        dict(name="C44_rand", n=4, simulate=150 if q else 4000, depth=40,
+        dict(name="C44_rand", n=4, simulate=100 if q else 3000, depth=40,
              consts=consts(4, 16 if q else 22, list(range(0, 8)) + [10, 19, 35, 39, 63], ascr=full_as, cbpos=3,
                            erracts=("none", "disable", "free"))),
-    ]
+    ] + ([] if q else [
+        # one step deeper for the two most common creation variants, and two-accept fault scripts
+        dict(name="C44_exh_core7", n=3, consts=consts(3, 7, [2, 3], acts=ACTS - {"seterr"})),
+        dict(name="C44_exh_faults2", n=3,
+             consts=consts(3, 5, [2, 3], acts={"connect", "loop", "seterr", "free"},
+                           ascr=ascripts(2, FAILS) | fault_scripts, cbacts={"free", "disable"}, cbpos=2,
+                           erracts=("none", "disable", "free"))),
+    ])
     hg = {}
     for g in gens:
         sampled = []
